@@ -20,5 +20,6 @@ class EvaluateStep(GeneticStep):
         target_size: int,
         generation: int,
     ) -> Iterator[Individual]:
+        population = list(population)
         evaluator.evaluate(problem, population)
         yield from population
